@@ -118,13 +118,13 @@ def ob_invariant(name, dim):
         want = _km_diff(c, val, comp, mult)
         got = grad[i] if isinstance(grad[i], X) else c.const(grad[i])
         n += 1
-        if not (got == want) and not ((got - want).coeff_abs_sum() <= EPS):
+        if not (got == want) and not _small(c, got - want, EPS):
             raise Refuted(f"d{name}/dC component {i} ({comp}) is {got}, Kelvin-Mandel derivative of {name} is {want}", signature=f"inv:{name}:{dim}:grad", replay=_sub("_replay_inv", name, dim))
         for j, (comp2, mult2) in enumerate(comps):
             want2 = _km_diff(c, got, comp2, mult2)
             got2 = hess[i][j] if isinstance(hess[i][j], X) else c.const(hess[i][j])
             n += 1
-            if not (got2 == want2) and not ((got2 - want2).coeff_abs_sum() <= EPS):
+            if not (got2 == want2) and not _small(c, got2 - want2, EPS):
                 raise Refuted(f"d2{name}/dC2 [{i},{j}] is {got2}, Kelvin-Mandel derivative of d{name}/dC[{i}] w.r.t. {comp2} is {want2}", signature=f"inv:{name}:{dim}:hess",
                               replay=_sub("_replay_inv", name, dim))
     return Verdict(DISCHARGED, backend="real HyperElasticState methods on Q(c_ij)(sqrt 2); exact differentiation", sub=n)
